@@ -219,6 +219,16 @@ def static_timeout(bm: BrokerModel):
                 r4, m4 = _valid(bm, z3.And(s.guard, z3.Not(close_at < now), g.open, z3.Not(s.post.open)))
                 out.append({"obligation": f"{tag}: market not closed by the timeout thread before the closing time", "result": str(r4), **({"witness": str(m4)} if m4 is not None else {})})
             out.append({"obligation": f"{tag}: thread exit drops its broker clone (wakes waiters via Drop)", "result": "unsat" if s.kind == "return_drop_broker" else "sat"})
+    # the timeout thread closes the market WITHOUT notifying; sleepers learn of it through the Drop of
+    # its broker clone (and of every leaving worker's): Drop on an already closed market must still
+    # wake every waiter, and a woken waiter on a closed market must return (checked in
+    # static_stop_propagation)
+    for i, sm in enumerate(bm.summarize("drop", g)):
+        if sm.kind == "bound":
+            continue
+        wakes = any(e[0] == "notify_all" for e in sm.events)
+        r, m = (z3.unsat, None) if wakes else _valid(bm, z3.And(z3.Not(g.open), sm.guard))
+        out.append({"obligation": f"timeout closure reaches sleepers: Drop path {i} on a closed market wakes every waiter", "result": str(r), **({"witness": str(m)} if m is not None else {})})
     kinds = {s.kind for _, s in all_sums}
     if "sleep" not in kinds or not (kinds & {"return_drop_broker"}):
         out.append({"obligation": "timeout thread has both a sleeping and an exiting path (shape check)", "result": "sat"})
